@@ -168,6 +168,8 @@ func c07(e *Env) {
 	c.Floor("parse", 100)
 	c.Floor("validity-coverage", 22)
 	c.Floor("arm-parser", 22)
+	c.Floor("accept-path", 22)
+	c.Floor("reject-path", 30)
 }
 
 func c08(e *Env) {
@@ -192,6 +194,8 @@ func c08(e *Env) {
 	c.Floor("validity-coverage", 14)
 	c.Floor("encode-order", 3)
 	c.Floor("arm-parser", 14)
+	c.Floor("accept-path", 14)
+	c.Floor("reject-path", 20)
 }
 
 func c09(e *Env) {
